@@ -11,12 +11,16 @@ def run(ctx):
         "geometry arithmetic = ideal; every configuration is materialised and read through load_tables/"
         "table_names(_in_sheet)/table_by_name(_ref) and load_merged_regions/merged_regions(_by_sheet)/"
         "worksheet_merge_cells(_at)")
-    ctx.assumptions += ["xls MergeCells records are covered once the BIFF materialiser is merged",
+    ctx.assumptions += [
                         "tables with no data row are not generated"]
     r = ctx.tlc("xlsx", "MC_XlsxMergeTable", ctx.pick("MC_XlsxMergeTable_quick.cfg", "MC_XlsxMergeTable_thorough.cfg"),
                 workers=ctx.pick(6, 12), timeout=ctx.pick(600, 3000), xmx=ctx.pick("4g", "12g"))
     if "REPLAY" in r["tags"]:
         ctx.replay("xlsx_tables", r["tags"]["REPLAY"])
+    # xls: MERGECELLS records (any split of the region list over records, two sheets)
+    r = ctx.tlc("biff", "MergeCells", ctx.pick("MergeCells_quick.cfg", "MergeCells_thorough.cfg"), workers=4, timeout=900)
+    if "REPLAY" in r["tags"]:
+        ctx.replay("xls_merge", r["tags"]["REPLAY"])
     trace = ctx.work + "/tables_trace.ndjson"
     ctx.cvh(["drive", "xlsx_tables", "--out", trace, "--n", ctx.pick(80, 2000)])
     v = ctx.validate_trace("xlsx", "Trace_XlsxMergeTable", "Trace_XlsxMergeTable.cfg", trace, timeout=ctx.pick(600, 3000))
